@@ -9,7 +9,7 @@
    and by the simulation runs with GVT periods down to 0. *)
 From Coq Require Import List Arith NArith.
 From Coq Require Import ZArith Sorted.
-From RS Require Import Buddy.BuddyTree Buddy.Alloc Buddy.AllocProofs Heap.HeapTime TW.App TW.Worker TW.WorkerProofs TW.WorkerSafety.
+From RS Require Import Buddy.BuddyTree Buddy.Alloc Buddy.AllocProofs Heap.HeapTime TW.App TW.Worker TW.WorkerProofs TW.WorkerSafety TW.WorkerOnceApp.
 
 Theorem C13_fossil_keeps_base : forall s tgt s' base, fossil_collect s tgt = Some (s', base) ->
   exists i g, nth_error (m_logs s) i = Some g /\ base = g_ref g /\ (g_ref g <= tgt)%N /\
@@ -52,6 +52,14 @@ Theorem C13_released_entries_lie_below_the_gvt : forall (x : lpx) (gvt : Z) past
   forall m, In (EProc m) (firstn ref (x_hist x)) -> (Z.of_N (tm m) < gvt)%Z.
 Proof. intros x. exact (fossil_releases_below (mkProg 1 1 0 0 0 nil nil nil) 0 (fun ev st e => app_handle_time _ ev st e) x). Qed.
 
+(* ... unconditionally: the error flag is never raised (every rollback, whatever straggler or cancellation causes it, finds a
+   checkpoint at or below its target among the ones fossil collection kept, and every fossil collection keeps one), so the
+   invariants above hold in EVERY reachable state of every program with types below the reserved ones *)
+Theorem C13_every_rollback_finds_a_kept_checkpoint : forall (p : prog) (ck : nat), types_okb p = true -> forall (ops : list wop),
+  k_err (fold_left (wstep p ck) ops (w_init p)) = false /\ good (fold_left (wstep p ck) ops (w_init p)).
+Proof. intros p ck Hp ops. split; [exact (worker_never_errs p ck Hp ops)|exact (worker_good p ck Hp ops)]. Qed.
+
+Print Assumptions C13_every_rollback_finds_a_kept_checkpoint.
 Print Assumptions C13_fossil_keeps_base.
 Print Assumptions C13_nothing_pending_lies_below_the_gvt.
 Print Assumptions C13_released_entries_lie_below_the_gvt.
